@@ -451,6 +451,12 @@ def hist_equal(a, b, exact):
         for key in ('t', 'pwm'):
             if (x[key] != y[key]) if exact else not close(x[key], y[key], 1e-9 * max(abs(x[key]), 1e-6)):
                 return f'instant {k}: {key} {x[key]!r} vs {y[key]!r}'
+        if (x['cur'] is None) != (y['cur'] is None):
+            return f'instant {k}: electric current recorded on one side only'
+        if x['cur'] is not None and not (x['cur'] != x['cur'] and y['cur'] != y['cur']):
+            cm = max(abs(r_['cur']) for r_ in ra + rb if r_['cur'] is not None and r_['cur'] == r_['cur']) if any(r_['cur'] is not None and r_['cur'] == r_['cur'] for r_ in ra + rb) else 0.0
+            if (x['cur'] != y['cur']) if exact else not close(x['cur'], y['cur'], 1e-6 * max(cm, 1e-12), rel=1e-6):
+                return f'instant {k}: electric current {x["cur"]!r} vs {y["cur"]!r}'
         for key in ('pos', 'spd', 'acc', 'tq', 'dtq', 'ltq'):
             sc_ = max([abs(v) for v in x[key] + y[key]] + [1e-12])
             sc_ = max([abs(v) for v in x[key] + y[key] if v == v] + [1e-12])
@@ -481,23 +487,35 @@ def c12_check(sc, rng):
     n = round(F(T[1]) / dts)
     if n < 5:
         return out
-    # (ii) reset / rerun
-    for newsolver in (False, True):
-        a = dict(base, ops=pre + [['run', dt, T, ctl, None]])
-        b = dict(base, ops=pre + [['run', dt, T, ctl, None], ['reset']] + ([['newsolver']] if newsolver else []) +
-                 [['setinit', base['pos0'], base['spd0']]] + [['run', dt, T, ctl, None]])
-        ra, rb = scen.run_impl(a), scen.run_impl(b)
-        if ra['err'] or rb['err']:
-            if ra['err'] != rb['err']:
-                out.append(W('rerun-raises', f'original run: {ra["err"]}, reset + rerun ({"new" if newsolver else "same"} solver): {rb["err"]} {rb.get("errmsg")}', b))
-            continue
-        d = hist_equal(ra['rows'], rb['rows'], exact=True)
-        if d:
-            pwm_changed_at_0 = ra['rows'][0]['pwm'] != initial_pwm(pre)
-            cls = 'D4' if pwm_changed_at_0 else 'rerun'
-            out.append(W(cls, f'reset + same schedule ({"new" if newsolver else "same"} solver) differs from the original: {d}', b))
-            if cls != 'D4':
-                return out
+    # (ii) reset / rerun: the scenario as it is, and one variant whose run ENDS in another state than it started in (the duty cycle
+    # switched off or reversed in the second half by a rule, the motor with or without current data): what reset forgets to
+    # restore shows only then
+    variants = [(base, ctl)]
+    half = ['Time', F2(dt[1]) * (n // 2), dt[2]]
+    late = [dict(r='const', start=half, dur=['TimeInterval', F2(T[1]) * 10, T[2]], v=rng.choice([0, 0, -0.5, 0.3]))]
+    vb = copy.deepcopy(base)
+    if rng.random() < 0.5 and vb['motor'].get('i0') is not None:
+        vb['motor']['i0'] = None
+        vb['motor']['imax'] = None
+    if ctl is None or all(x['r'] == 'const' for x in ctl):
+        variants.append((vb, late))
+    for vbase, vctl in variants:
+        for newsolver in (False, True):
+            a = dict(vbase, ops=pre + [['run', dt, T, vctl, None]])
+            b = dict(vbase, ops=pre + [['run', dt, T, vctl, None], ['reset']] + ([['newsolver']] if newsolver else []) +
+                     [['setinit', vbase['pos0'], vbase['spd0']]] + [['run', dt, T, vctl, None]])
+            ra, rb = scen.run_impl(a), scen.run_impl(b)
+            if ra['err'] or rb['err']:
+                if ra['err'] != rb['err']:
+                    out.append(W('rerun-raises', f'original run: {ra["err"]}, reset + rerun ({"new" if newsolver else "same"} solver): {rb["err"]} {rb.get("errmsg")}', b))
+                continue
+            d = hist_equal(ra['rows'], rb['rows'], exact=True)
+            if d:
+                pwm_changed_at_0 = ra['rows'][0]['pwm'] != initial_pwm(pre)
+                cls = 'D4' if pwm_changed_at_0 else 'rerun'
+                out.append(W(cls, f'reset + same schedule ({"new" if newsolver else "same"} solver) differs from the original: {d}', b))
+                if cls != 'D4':
+                    return out
     # (i) continuation
     k1 = rng.randint(2, n - 2)
     u2 = rng.choice(S.units('Time'))
@@ -519,6 +537,10 @@ def c12_check(sc, rng):
     if d:
         out.append(W('continue', f'run({k1} steps) + continue({n - k1} steps, dt in {u2}) differs from one run of {n} steps: {d}', b))
     return out
+
+
+def F2(x):
+    return float(x)
 
 
 def initial_pwm(pre):
